@@ -808,9 +808,8 @@ def check_histories(chk: Check, hists, cfg, nontrivial, label='cases', model=Tru
     exprs = []
     for hc, (recs, view) in zip(hists, impl):
         ops = coq_history(hc['ops'], recs)
-        exprs.append(f"(run_keys {coq_cfg(cfg)} empty_world [{'; '.join(ops)}], "
-                     f"hist_okb (abs empty_world) [{'; '.join(ops)}], "
-                     f"snd (spec_run (abs empty_world) [{'; '.join(ops)}]))")
+        exprs.append(f"let ops := [{'; '.join(ops)}] in (run_keys {coq_cfg(cfg)} empty_world ops, "
+                     f"hist_okb (abs empty_world) ops, snd (spec_run (abs empty_world) ops))")
     mres = chk.coq_eval(HEADER, exprs, shard=40, label=label) if model else [None] * len(hists)
     for hc, (recs, view), mr in zip(hists, impl, mres):
         judge(chk, hc, recs, view, mr, cfg, nontrivial, leftovers)
